@@ -43,6 +43,12 @@ func registerRPC() {
 	natives[rpcPkg+".NewServer"] = func(m *Machine, c *frame, fn *ssa.Function, a []Value) Value {
 		p := m.newRPCObject(rpcPkg + ".Server")
 		m.rpcServerOf(p)
+		// apply the real option closures (e.g. WithAuthorizeFunc) to the server object
+		if opts, ok := a[2].([]Value); ok {
+			for _, o := range opts {
+				m.call(c, 0, o, []Value{p})
+			}
+		}
 		return p
 	}
 	natives[rpcPkg+".NewClientWithServer"] = func(m *Machine, c *frame, fn *ssa.Function, a []Value) Value {
